@@ -4,6 +4,7 @@ CONSTANTS
   WithExit = TRUE
   MaxH = 100
   UniformInit = FALSE
+  InitVals = {"D", "I"}
 VIEW view
 INVARIANT Consistent
 INVARIANT EmitState
